@@ -46,11 +46,16 @@ Init == /\ expect = [t |-> "none"]
              /\ (g # "none" => HasGuess(op))
              /\ (cx => ComplexOK(op))
              /\ (be = "cpp" => op \in {"fast_matvec", "amen_solve"} /\ ~cx)
-             /\ (data = "decay" => op \in ProductOps)
+             /\ (data = "decay" => op \in ProductOps \cup SolveOps)
              /\ (sq => op \in {"fast_matvec", "amen_mv", "amen_mm", "amen_solve"})      \* square operator
              /\ (g = "alias" => (sq \/ op \notin {"fast_matvec", "amen_mv", "amen_mm"}))
              /\ (op \notin SolveOps => prec = "none" /\ mf = 500 /\ ls = 1 /\ sys = "na")
-             /\ (op \in SolveOps => sys # "na" /\ sq /\ data = "rand")
+             \* amen_solve: data = "rand" is a consistent right-hand side b = A x* with x* of rank r, data = "decay" a random
+             \* right-hand side of rank r (the solution then has larger ranks and the local systems exceed max_full)
+             /\ (op \in SolveOps => sys # "na" /\ sq)
+             /\ (op \in SolveOps /\ data = "decay" => Len(N) >= 3 /\ N[1] >= 12)
+             \* large systems (where the restarted / iterative local solvers really iterate) only for the Laplacian class
+             /\ (op \in SolveOps /\ Len(N) >= 3 /\ N[1] >= 12 => sys = "laplace" /\ g \in {"none", "fresh"} /\ ls = 1)
              /\ (op \in DivideOps \cup CrossOps \cup ManifoldOps => data = "rand" /\ ~sq)
              /\ (op = "elementwise_divide_c" \/ op \in {"div", "rdiv"} => g \in {"none"} \/ op = "elementwise_divide_c")
              /\ cfg = [op |-> op, N |-> N, M |-> IF sq THEN N ELSE RowsOf(N), r |-> r, e |-> e, guess |-> g, seed |-> s, cx |-> cx,
